@@ -119,6 +119,22 @@ def run_js(W, cfg):
     for (i, j) in cells:
         W.ob_true(f'non-negative [{i},{j}]', out[i, j] >= 0)
     W.ob('total signal kept', W.sum(out[i, j] for i, j in cells), tot_in)
+    # the transfer function is the analytic one on numpy's fftfreq grid (x <-> columns, y <-> rows), applied as a circular convolution
+    fy, fx = rnp.fft.fftfreq(shp[0]), rnp.fft.fftfreq(shp[1])
+    K = W.zeros(shp)
+    for u in range(shp[0]):
+        for v in range(shp[1]):
+            if cfg['fn'] == 'jitter':
+                rho = float(rnp.sqrt(fx[v] ** 2 + fy[u] ** 2))
+                K[u, v] = W.exp(-2 * (W.pi() * (ext / p) * os * rho) ** 2) if W.sym else rnp.exp(-2 * (rnp.pi * (ext / p) * os * rho) ** 2)
+            else:
+                a = W.np.radians(cfg['angle'])
+                t = W.np.sin(a) * fy[u] + W.np.cos(a) * fx[v]
+                K[u, v] = W.np.sinc(t * (ext / p) * os)
+    blurred = W.np.abs(W.np.fft.ifft2(W.np.fft.fft2(img) * K))
+    tb = W.sum(blurred[i, j] for i, j in cells)
+    if W.sym or tb != 0:
+        W.ob('output = circular convolution with the analytic transfer function, renormalised', out, blurred * tot_in / tb)
     # extent in physical units with a pixel scale = the same extent in samples
     try:
         same = f(img, ext * 3, p * 3)
